@@ -54,4 +54,57 @@ def Outcome.completes : Outcome → Bool
   | .key _ | .combineErr _ => true
   | _ => false
 
+/-! ### key rotation / rekey / generate-root: the same accounting followed by a verification step
+
+`rotate.go` `(*SealManager).UpdateRotation` → `progressRotation` (duplicate ⇒ error, append, `len < threshold` ⇒
+nothing, `Parts[0]` | `shamir.Combine`, progress reset) and then, before anything is rotated, the verification of
+the recovered key: `seal.VerifyRecoveryKey` (constant-time comparison with the stored recovery key) when
+`recovery || seal.RecoveryKeySupported()`, and for a Shamir barrier the recovered key must decrypt the stored root
+key (`testseal.GetStoredKeys` + `barrier.VerifyRoot`). Both are modelled symbolically as *equality with the key the
+current shares were dealt from* (`cfg.secret`). `rekey.go` (legacy) and `generate_root.go` have the same shape with
+the length checks of `unsealFragment` in front (`cfg.lenCheck`). -/
+
+structure RotCfg where
+  (threshold : Int)                   -- `SecretThreshold` of the *existing* (recovery or barrier) config
+  (secret : List Nat)                 -- the key the current shares were dealt from
+  (lenCheck : Option (Nat × Nat))     -- `some (min, max)` where the path checks the part length first
+  deriving Repr
+
+inductive RotOutcome
+  | tooShort | tooLong                -- only with `lenCheck`
+  | duplicate                         -- "given key has already been provided"; nothing recorded
+  | pending (progress : Nat)          -- recorded; below the threshold
+  | combineErr (e : CombineErr)       -- threshold met, `shamir.Combine` failed; progress reset
+  | verifyFail                        -- recovered key is not the current key: refused; progress reset
+  | proceeds                          -- verification passed: the rotation / rekey / root generation goes ahead
+  deriving DecidableEq, Repr
+
+/-- `Parts[0]` for threshold 1, `shamir.Combine(Parts)` otherwise, on `Parts = st ++ [key]` -/
+def recoverKey (threshold : Int) (st : List Part) (key : Part) : Except CombineErr (List Nat) :=
+  if threshold = 1 then .ok (match st with | [] => key | p0 :: _ => p0) else combine (st ++ [key])
+
+/-- one `UpdateRotation` / `BarrierRekeyUpdate` / `GenerateRootUpdate` call -/
+def rotSubmit (cfg : RotCfg) (st : List Part) (key : Part) : List Part × RotOutcome :=
+  match cfg.lenCheck with
+  | some (mn, mx) =>
+    if key.length < mn then (st, .tooShort)
+    else if key.length > mx then (st, .tooLong)
+    else rest
+  | none => rest
+where
+  rest : List Part × RotOutcome :=
+    if st.contains key then (st, .duplicate)
+    else if ((st ++ [key]).length : Int) < cfg.threshold then (st ++ [key], .pending (st.length + 1))
+    else match recoverKey cfg.threshold st key with
+      | .error e => ([], .combineErr e)
+      | .ok k => if k = cfg.secret then ([], .proceeds) else ([], .verifyFail)
+
+/-- a whole history of submissions to one rotation attempt sequence -/
+def rotRun (cfg : RotCfg) : List Part → List Part → List Part × List RotOutcome
+  | st, [] => (st, [])
+  | st, k :: ks =>
+    let r := rotSubmit cfg st k
+    let rest := rotRun cfg r.1 ks
+    (rest.1, r.2 :: rest.2)
+
 end Obao.Threshold
